@@ -56,6 +56,8 @@ ASSUMPTIONS = [
     "block size k >= 1 (k = 0 raises ZeroDivisionError in the code; compared as an error)",
     "the mean/std ratio of generated signals stays below 1e3 so that the global mean removal does not eat the "
     "tolerance",
+    "sample magnitudes (also after scaling by a) stay within 1e-30 .. 1e12, far from the subnormal/overflow range "
+    "of the squared values; all tolerances are relative to the signal's own mean square",
 ]
 
 TOL = 1e-9
@@ -604,6 +606,26 @@ def gen_signal(rng, n):
     return x
 
 
+UNITS = [1e-15, 1e-12, 1e-9, 1e-8, 1e-6, 1e-3, 1e3, 1e6]  # N, m, nm-in-m, ... : the unit a signal is expressed in
+SCALES = [1e-12, 1e-9, 1e-6, 1e-3, 1e3, 1e6, -1e-9, -1e-6]  # unit conversions used as the scale factor a
+
+
+def gen_unit(rng):
+    """the unit the signal is expressed in: mostly 1; otherwise a power of ten between 1e-15 and 1e6 (forces in
+    newtons, displacements in metres, raw detector counts) or log-uniform over that span.  The property is stated for
+    every real signal: nothing in it depends on the absolute magnitude of the samples."""
+    c = rng.randint(0, 9)
+    if c <= 5:
+        return 1.0
+    if c <= 8:
+        return rng.choice(UNITS)
+    return rng.loguniform(1e-15, 1e6)
+
+
+def in_unit(x, u):
+    return x if u == 1.0 else [u * v for v in x]
+
+
 FS = [1.0, 2.0, 10.0, 78125.0, 1000.0 / 3.0, 0.125, 12800.0]
 
 
@@ -770,6 +792,18 @@ def small_scope(quick):
         x = [float(((i * i + 3 * i) % 7) - 3) + (0.5 if i % 3 == 0 else 0.0) for i in range(n)]
         for npw in [None] + list(range(1, n + 2)):
             yield {"stream": "small-scope", "op": "psd", "x": x, "fs": 2.0, "ws": None if npw is None else npw / 2.0, "a": -1.5, "c": 2.0}
+    # the same signals expressed in every unit 1e-15 .. 1e6 (odd and even length, no window / 2 windows / windows
+    # with a remainder), scaled by a unit conversion and shifted by offsets of the signal's own size
+    lens = (4, 5, 8, 9) if quick else (4, 5, 6, 7, 8, 9, 12, 13, 32, 33)
+    for n in lens:
+        base = [float(((i * i + 3 * i) % 7) - 3) + (0.5 if i % 3 == 0 else 0.0) for i in range(n)]
+        for e in range(-15, 7):
+            u = 10.0**e
+            x = [u * v for v in base]
+            for j, npw in enumerate([None, n // 2, 3]):
+                a = (1e-9, 1e-3, 1e3, -1e-6, 1e-12, 1e6)[(e + j) % 6]
+                c = (2.0, -0.75, 100.0)[(e + 2 * j) % 3] * u
+                yield {"stream": "small-scope", "op": "psd", "x": x, "fs": 2.0, "ws": None if npw is None else npw / 2.0, "a": a, "c": c}
 
 
 def cases(tier, rng):
@@ -818,7 +852,16 @@ def cases(tier, rng):
         fs = gen_fs(sub)
         a = sub.choice([2.0, -1.0, 0.5, 3.0, -0.1, 1e3, 1e-3]) if sub.chance(0.6) else sub.uniform(-10, 10) or 1.0
         c = sub.choice([1.0, -2.5, 10.0, 0.1]) if sub.chance(0.6) else sub.uniform(-50, 50)
-        yield {"stream": "random", "op": "psd", "x": gen_signal(sub, n), "fs": fs, "ws": gen_ws(sub, n, fs), "a": a, "c": c, "subseed": i}
+        x = gen_signal(sub, n)
+        ws = gen_ws(sub, n, fs)
+        # magnitude: the signal in another unit (shift in the same unit, or, rarely, an absolute one), and unit
+        # conversions as the scale factor
+        u = gen_unit(sub)
+        if u != 1.0 and sub.chance(0.85):
+            c = c * u
+        if sub.chance(0.25):
+            a = sub.choice(SCALES) if sub.chance(0.7) else sub.choice([-1.0, 1.0]) * sub.loguniform(1e-12, 1e6)
+        yield {"stream": "random", "op": "psd", "x": in_unit(x, u), "fs": fs, "ws": ws, "a": a, "c": c, "subseed": i}
 
     # ---- random chains on computed spectra and on injected arrays
     M = 3000 if quick else 25000
@@ -833,6 +876,7 @@ def cases(tier, rng):
             src = {"x": x, "fs": fs}
             if ws is not None:
                 src["ws"] = ws
+            rescale = True
             npw = expected_npw({"ws": ws, "fs": fs}, n) or 1
             fr = bin_freqs(npw, fs)
             pw = None
@@ -851,6 +895,7 @@ def cases(tier, rng):
             src = {"freq": fr, "power": pw}
             if sub.chance(0.15):
                 src["nppb"] = sub.randint(2, 7)
+            rescale = False
         which = sub.randint(0, 9)
         if which <= 4 or not fr:
             steps = chain_steps(sub, fr or [0.0], pw, "x" in src)
@@ -870,6 +915,8 @@ def cases(tier, rng):
                 cur = [f for f in cur if a_ < f <= b_]
             baseline, cutoff = gen_peaks_step(sub, len(cur))
             steps.append(["peaks", None, baseline, cutoff])
+        if rescale:
+            src["x"] = in_unit(src["x"], gen_unit(sub))  # the steps act on frequencies: unaffected by the unit
         yield {"stream": "random", "op": "chain", "src": src, "steps": steps, "subseed": i}
 
 
@@ -910,7 +957,9 @@ RULE = (
     "and twice in a row; identify_peaks: every pattern of the five levels {below baseline, = baseline, between, "
     "= cut-off, above} on 1..7 (quick 6) bins; PowerSpectrum of every length 4..33 (quick 12) with every window "
     "length 1..N+1 and no window) + seeded random: signals of length 4-96 (integers, dyadic rationals, noisy "
-    "sines, noise, impulses, Nyquist alternation, large offsets, constants), sample rates (dyadic, 1000/3, "
+    "sines, noise, impulses, Nyquist alternation, large offsets, constants; 40% of them expressed in another unit: "
+    "multiplied by 1e-15..1e6, shifts in the same unit, unit conversions 1e-12..1e6 as scale factors; small scope: "
+    "one signal per length in every unit 1e-15..1e6), sample rates (dyadic, 1000/3, "
     "log-uniform), windows given in seconds (exact, +-0.3, +-0.49 and +-0.5 sample ties, longer than the data), "
     "scale factors and shifts; chains of 1-3 in_range/_exclude_range/downsampled_by/with_spectrum/bin-width steps "
     "and calculate_power_spectrum pipelines on computed spectra and on injected arrays, with range edges placed on "
